@@ -215,7 +215,7 @@ func NewReader(filename string) (*Reader, error) {
 				hostSize = 16
 			}
 			hostCount := int(hg.Count) + 1
-			hosts = hosts[hg.Start:][:hostSize*hostCount]
+			hosts = hosts[int(hg.Start)*hostSize:][:hostSize*hostCount]
 			r.hostGroups = append(r.hostGroups, readerHostGroup{
 				hostCount: hostCount,
 				hostSize:  hostSize,
